@@ -1206,7 +1206,7 @@ func OnAllWays(b *ssa.BasicBlock, want func([]Fact) bool, depth int) bool {
 	if want(facts) {
 		return true
 	}
-	if depth > 3 {
+	if depth > 6 {
 		return false
 	}
 	for _, f := range facts {
